@@ -92,7 +92,8 @@ def parseOp (a r : List String) (guess : Bool) : Option Op :=
       pure (.mergeLp (← parsePairs l) (← parseLk (g "mk" "0:0@0")))
   | ["mergeFarm", _u, f, l] => do
       pure (.mergeFarm (farmId f) (← parsePairs l) (← parsePair (g "mfarm" "0:0"))
-        (← parseLk (g "mk" "0:0@0")) (← parseLks (if guess then "-" else kvD r "stray" "-")))
+        (← parseLk (g "mk" "0:0@0")) (← parseLkOpt (g "rew" "-"))
+        (← parseLks (if guess then "-" else kvD r "stray" "-")))
   | ["incLp", _u, wx, _e] => do
       let (w, x) ← parsePair wx
       pure (.incLp w x (← parseLk (g "nk" "0:0@0")))
